@@ -79,3 +79,30 @@ fn font_widths_commute() {
     two_orders(3, 1, 1, 0);
     two_orders(1, 3, 2, 9);
 }
+
+/// one `first [w0 w1 ..]` group the way Font::widths applies it -- ensure_cid(first + n - 1), then set(first + i, w_i) for each
+/// element -- on a concrete table shape: afterwards the group's codes have the group's widths and every other code is unchanged
+/// (in particular codes in a gap between the old table and the group still read the default width)
+fn group(first: usize, len: usize, c1: usize, glen: usize) {
+    let vals = [anyw(), anyw(), anyw()];
+    let mut w = Widths { values: vals[..len].to_vec(), default: anyw(), first_char: first };
+    let gw = [anyw(), anyw(), anyw()];
+    let q: usize = kani::any();
+    kani::assume(q <= 14);
+    let before = w.get(q);
+    w.ensure_cid(c1 + glen - 1);
+    let mut i = 0;
+    while i < glen { w.set(c1 + i, gw[i]); i += 1; }
+    let after = w.get(q);
+    if q >= c1 && q < c1 + glen { assert!(after == gw[q - c1]); } else { assert!(after == before); }
+    std::mem::forget(w);
+}
+#[kani::proof]
+fn font_widths_group_shapes() {
+    group(2, 2, 6, 2);      // gap between table and group
+    group(0, 0, 3, 2);      // empty table
+    group(4, 2, 0, 2);      // group before the table, with a gap
+    group(2, 2, 4, 2);      // adjacent
+    group(2, 3, 3, 2);      // overlapping
+    group(1, 1, 5, 3);      // longer group after a gap
+}
